@@ -510,6 +510,8 @@ func objString(o interface{}) string {
 		return v
 	case *Thread:
 		return v.Name
+	case uintptr:
+		return "chan"
 	case Multi:
 		if len(v) > 0 {
 			return objString(v[0])
